@@ -180,40 +180,40 @@ Definition PX (X : nat -> Prop) (e : eng) : Prop := forall t, t < ntasks e -> op
 Definition none (_ : nat) : Prop := False.
 Definition Prog (e : eng) : Prop := PX none e.
 
-Record SI (e : eng) : Prop := {
-  si_nodes : frag_nodes (nodes e) = true;
-  si_exn : exn e = false;
-  si_oof : oof e = false;
-  si_nh : nohooks e;
-  si_task : forall t, t < ntasks e -> okst (st e t) = true /\ t_nid (tk e t) < length (nodes e) /\
+Record SIa (e : eng) : Prop := {
+  sia_nodes : frag_nodes (nodes e) = true;
+  sia_exn : exn e = false;
+  sia_oof : oof e = false;
+  sia_nh : nohooks e;
+  sia_task : forall t, t < ntasks e -> okst (st e t) = true /\ t_nid (tk e t) < length (nodes e) /\
                                      (kind e t = KAct -> st e t <> SRunning) /\ (0 < t -> kind e t <> KWorkflow);
-  si_root : 0 < ntasks e /\ t_prev (tk e 0) = None /\ t_nid (tk e 0) = 0;
-  si_prev : forall t, 0 < t -> t < ntasks e -> exists q, t_prev (tk e t) = Some q /\ q < t /\ st e q <> SNone /\
+  sia_root : 0 < ntasks e /\ t_prev (tk e 0) = None /\ t_nid (tk e 0) = 0;
+  sia_prev : forall t, 0 < t -> t < ntasks e -> exists q, t_prev (tk e t) = Some q /\ q < t /\ st e q <> SNone /\
                ((kind e q <> KAct /\ kind e t = child_kind (kind e q)) \/ (kind e t = kind e q /\ is_completed (st e q) = true));
-  si_queue : (forall t, In t (queue e) -> t < ntasks e /\ (st e t = SNone \/ is_completed (st e t) = true)) /\ NoDup (queue e);
-  si_ps : PS e }.
+  sia_queue : (forall t, In t (queue e) -> t < ntasks e /\ (st e t = SNone \/ is_completed (st e t) = true)) /\ NoDup (queue e);
+  sia_ps : PS e }.
 
-Lemma SI_W e : SI e -> W e.
+Lemma SIa_W e : SIa e -> W e.
 Proof.
   intros H t Ht. destruct t as [|t].
-  - destruct (si_root e H) as (_ & -> & _). exact I.
-  - destruct (si_prev e H (S t) ltac:(lia) Ht) as (q & -> & Hq & _). exact Hq.
+  - destruct (sia_root e H) as (_ & -> & _). exact I.
+  - destruct (sia_prev e H (S t) ltac:(lia) Ht) as (q & -> & Hq & _). exact Hq.
 Qed.
 Lemma frag_nth ns nid : frag_nodes ns = true -> nid < length ns -> frag_node ns (nth nid ns dnode) = true.
 Proof.
   intros H Hn. unfold frag_nodes in H. apply andb_true_iff in H as [H _]. rewrite forallb_forall in H. apply H. now apply nth_In.
 Qed.
-Lemma SI_fnode e t : SI e -> t < ntasks e -> frag_node (nodes e) (tnode e t) = true.
-Proof. intros H Ht. unfold tnode, nd. apply frag_nth; [apply H | apply (si_task e H t Ht)]. Qed.
-Lemma SI_level e t : SI e -> t < ntasks e -> n_level (tnode e t) = lvl_of (kind e t).
+Lemma SIa_fnode e t : SIa e -> t < ntasks e -> frag_node (nodes e) (tnode e t) = true.
+Proof. intros H Ht. unfold tnode, nd. apply frag_nth; [apply H | apply (sia_task e H t Ht)]. Qed.
+Lemma SIa_level e t : SIa e -> t < ntasks e -> n_level (tnode e t) = lvl_of (kind e t).
 Proof.
-  intros H Ht. pose proof (SI_fnode e t H Ht) as F. unfold frag_node in F.
+  intros H Ht. pose proof (SIa_fnode e t H Ht) as F. unfold frag_node in F.
   repeat (apply andb_true_iff in F as [F ?]). unfold kind. now apply Nat.eqb_eq.
 Qed.
-Lemma SI_root_kind e : SI e -> kind e 0 = KWorkflow.
+Lemma SIa_root_kind e : SIa e -> kind e 0 = KWorkflow.
 Proof.
-  intros H. destruct (si_root e H) as (_ & _ & Hn). unfold kind, tnode, nd. rewrite Hn.
-  pose proof (si_nodes e H) as F. unfold frag_nodes in F. apply andb_true_iff in F as [_ F].
+  intros H. destruct (sia_root e H) as (_ & _ & Hn). unfold kind, tnode, nd. rewrite Hn.
+  pose proof (sia_nodes e H) as F. unfold frag_nodes in F. apply andb_true_iff in F as [_ F].
   destruct (nodes e) as [|r l]; [discriminate|]. cbn [nth]. destruct (n_kind r); simpl in F; congruence.
 Qed.
 
@@ -221,34 +221,34 @@ Lemma nkb_eq a b : nkind_beq a b = true -> a = b. Proof. destruct a, b; simpl; c
 Lemma nkb_refl a : nkind_beq a a = true. Proof. destruct a; reflexivity. Qed.
 
 (* the parent of a task started as a child is its prev; of a task started through a next link, the parent of its prev *)
-Lemma parent_child e t q : SI e -> 0 < t -> t < ntasks e -> t_prev (tk e t) = Some q -> q < t ->
+Lemma parent_child e t q : SIa e -> 0 < t -> t < ntasks e -> t_prev (tk e t) = Some q -> q < t ->
   kind e q <> KAct -> kind e t = child_kind (kind e q) -> parent e t = Some q.
 Proof.
   intros H Ht0 Ht Hp Hq Hk Hc. unfold parent. rewrite Hp. cbn [parent_from].
-  rewrite (SI_level e t H Ht), (SI_level e q H ltac:(lia)), Hc.
+  rewrite (SIa_level e t H Ht), (SIa_level e q H ltac:(lia)), Hc.
   destruct (kind e q); try contradiction; reflexivity.
 Qed.
-Lemma parent_nextlink e t q : SI e -> 0 < t -> t < ntasks e -> t_prev (tk e t) = Some q -> q < t ->
+Lemma parent_nextlink e t q : SIa e -> 0 < t -> t < ntasks e -> t_prev (tk e t) = Some q -> q < t ->
   kind e t = kind e q -> parent e t = parent e q.
 Proof.
   intros H Ht0 Ht Hp Hq Hk. unfold parent. rewrite Hp. cbn [parent_from].
-  rewrite (SI_level e t H Ht), (SI_level e q H ltac:(lia)), Hk, Nat.ltb_irrefl.
-  pose proof (SI_W e H) as HW. pose proof (HW q ltac:(lia)) as Hpq.
+  rewrite (SIa_level e t H Ht), (SIa_level e q H ltac:(lia)), Hk, Nat.ltb_irrefl.
+  pose proof (SIa_W e H) as HW. pose proof (HW q ltac:(lia)) as Hpq.
   destruct (t_prev (tk e q)) as [r|].
   - unfold ntasks in *.
     exact (pf_agree e e (lvl_of (kind e q)) (length (tasks e)) eq_refl (fun _ _ => eq_refl) (fun x Hx => HW x Hx) r ltac:(lia)
              (length (tasks e)) (S (length (tasks e))) ltac:(lia) ltac:(lia)).
   - unfold ntasks in Ht. destruct (length (tasks e)); reflexivity.
 Qed.
-Lemma parent_level e t p : SI e -> t < ntasks e -> parent e t = Some p -> p < t /\ lvl_of (kind e p) < lvl_of (kind e t).
+Lemma parent_level e t p : SIa e -> t < ntasks e -> parent e t = Some p -> p < t /\ lvl_of (kind e p) < lvl_of (kind e t).
 Proof.
-  intros H Ht Hp. pose proof (SI_W e H) as HW. split; [eapply parent_lt; eauto|].
+  intros H Ht Hp. pose proof (SIa_W e H) as HW. split; [eapply parent_lt; eauto|].
   assert (Hpt : p < t) by (eapply parent_lt; eauto).
-  unfold parent in Hp. rewrite (SI_level e t H Ht) in Hp.
+  unfold parent in Hp. rewrite (SIa_level e t H Ht) in Hp.
   assert (G : forall f q, q < ntasks e -> parent_from f e (lvl_of (kind e t)) (Some q) = Some p -> lvl_of (kind e p) < lvl_of (kind e t)).
   { induction f as [|f IH]; intros q Hq Hf; cbn [parent_from] in Hf; [discriminate|].
     destruct (Nat.ltb_spec (n_level (tnode e q)) (lvl_of (kind e t))) as [Hl|Hl].
-    - inversion Hf; subst q. rewrite (SI_level e p H Hq) in Hl. exact Hl.
+    - inversion Hf; subst q. rewrite (SIa_level e p H Hq) in Hl. exact Hl.
     - pose proof (HW q Hq) as Hpq. destruct (t_prev (tk e q)) as [r|]; [apply (IH r); [lia | exact Hf]|].
       destruct f; discriminate. }
   pose proof (HW t Ht) as Hpr. destruct (t_prev (tk e t)) as [q|]; [|cbn in Hp; discriminate].
@@ -264,7 +264,7 @@ Proof.
   - right; right. split; [now rewrite Hst|]. exists j. pose proof HS as (A & B & C). split; [now rewrite B|].
     split; [rewrite (sameS_parent e e' j HS); exact Hp | unfold opn; now rewrite Hst].
 Qed.
-Lemma SI_teq e e' : teq e e' -> SI e -> SI e'.
+Lemma SIa_teq e e' : teq e e' -> SIa e -> SIa e'.
 Proof.
   intros T H. pose proof (sameS_teq _ _ T) as HS. pose proof (teq_len _ _ T) as L.
   pose proof T as (Tn & Tq & Tx & To & Tk & Tp).
@@ -273,9 +273,9 @@ Proof.
   - rewrite Tx. apply H.
   - rewrite To. apply H.
   - eapply nohooks_teq; eauto. apply H.
-  - intros t Ht. rewrite L in Ht. rewrite (teq_st _ _ t T), (teq_nid _ _ t T), (teq_kind _ _ t T), Tn. apply (si_task e H t Ht).
+  - intros t Ht. rewrite L in Ht. rewrite (teq_st _ _ t T), (teq_nid _ _ t T), (teq_kind _ _ t T), Tn. apply (sia_task e H t Ht).
   - rewrite L, (teq_prev _ _ 0 T), (teq_nid _ _ 0 T). apply H.
-  - intros t Ht0 Ht. rewrite L in Ht. destruct (si_prev e H t Ht0 Ht) as (q & A & B & C & D). exists q.
+  - intros t Ht0 Ht. rewrite L in Ht. destruct (sia_prev e H t Ht0 Ht) as (q & A & B & C & D). exists q.
     rewrite (teq_prev _ _ t T), (teq_st _ _ q T), !(teq_kind _ _ _ T). auto.
   - rewrite Tq. split; [|apply H]. intros t Ht. rewrite L, (teq_st _ _ t T). apply H, Ht.
   - apply Tp, H.
@@ -303,10 +303,10 @@ Lemma misc_ss site e i s : nodes (set_state site e i s) = nodes e /\ exn (set_st
 Proof. unfold set_state. destruct (negb _); [auto|]. destruct (_ && _); auto. Qed.
 
 (* writing a state s to task i: the structural invariant, given what s may be *)
-Lemma SI_ss site e i s : SI e -> i < ntasks e -> okst s = true -> s <> SNone ->
+Lemma SIa_ss site e i s : SIa e -> i < ntasks e -> okst s = true -> s <> SNone ->
   (kind e i = KAct -> s <> SRunning) ->
   (is_completed s = false -> is_completed (st e i) = false /\ ~ In i (queue e)) ->
-  SI (set_state site e i s).
+  SIa (set_state site e i s).
 Proof.
   intros H Hi Hok Hnn Hact Hopen. pose proof (sameS_set_state site e i s) as HS.
   destruct (misc_ss site e i s) as (Mn & Mx & Mo).
@@ -314,22 +314,22 @@ Proof.
   - rewrite Mn. apply H.
   - rewrite Mx. apply H.
   - rewrite Mo. apply H.
-  - intros t. rewrite tk_set_state. destruct (_ && _); [|apply (si_nh e H t)]. cbn [t_hooks t_evproc]. apply (si_nh e H i).
+  - intros t. rewrite tk_set_state. destruct (_ && _); [|apply (sia_nh e H t)]. cbn [t_hooks t_evproc]. apply (sia_nh e H i).
   - intros t Ht. rewrite ntasks_set_state in Ht. rewrite (sameS_kind _ _ t HS), Mn. destruct HS as (_ & _ & HS). destruct (HS t) as [-> _].
-    rewrite (st_ss site e i s t Hi). destruct (si_task e H t Ht) as (A & B & C & D).
+    rewrite (st_ss site e i s t Hi). destruct (sia_task e H t Ht) as (A & B & C & D).
     destruct (Nat.eqb_spec t i) as [->|]; auto.
   - rewrite ntasks_set_state. destruct HS as (_ & _ & HS). destruct (HS 0) as [-> ->]. apply H.
-  - intros t Ht0 Ht. rewrite ntasks_set_state in Ht. destruct (si_prev e H t Ht0 Ht) as (q & A & B & C & D). exists q.
+  - intros t Ht0 Ht. rewrite ntasks_set_state in Ht. destruct (sia_prev e H t Ht0 Ht) as (q & A & B & C & D). exists q.
     rewrite !(sameS_kind _ _ _ HS). destruct HS as (_ & _ & HS). destruct (HS t) as [_ ->].
     rewrite (st_ss site e i s q Hi). split; [exact A|]. split; [exact B|].
     destruct (Nat.eqb_spec q i) as [->|]; [|auto]. split; [exact Hnn|].
     destruct D as [D | [D1 D2]]; [left; exact D|]. right. split; [exact D1|].
     destruct (is_completed s) eqn:Es; [reflexivity|]. destruct (Hopen eq_refl) as [Ho _]. congruence.
   - rewrite queue_set_state. split; [|apply H]. intros t Ht. rewrite ntasks_set_state, (st_ss site e i s t Hi).
-    destruct (proj1 (si_queue e H) t Ht) as [A B]. split; [exact A|].
+    destruct (proj1 (sia_queue e H) t Ht) as [A B]. split; [exact A|].
     destruct (Nat.eqb_spec t i) as [->|]; [|exact B].
     destruct (is_completed s) eqn:Es; [now right|]. destruct (Hopen eq_refl) as [_ Hq]. contradiction.
-  - unfold PS. rewrite (st_ss site e i s 0 Hi), (pstate_ss site e i s Hi). pose proof (si_ps e H) as P. unfold PS in P.
+  - unfold PS. rewrite (st_ss site e i s 0 Hi), (pstate_ss site e i s Hi). pose proof (sia_ps e H) as P. unfold PS in P.
     destruct (Nat.eqb_spec 0 i) as [<-|Hne].
     + intros Hc. rewrite Hc. cbn. exact Hc.
     + intros Hc. replace (Nat.eqb i 0) with false by (symmetry; apply Nat.eqb_neq; lia). rewrite andb_false_r. now apply P.
@@ -378,10 +378,10 @@ Proof.
   exact (pf_agree e e' (n_level (nth (t_nid (tk e t)) (nodes e) dnode)) (length (tasks e)) Hn Hk (fun x Hx => HW x Hx) q ltac:(lia)
            (S (length (tasks e'))) (S (length (tasks e))) ltac:(lia) ltac:(lia)).
 Qed.
-Lemma SI_spawn v e nid p : SI e -> p < ntasks e -> nid < length (nodes e) -> st e p <> SNone ->
+Lemma SIa_spawn v e nid p : SIa e -> p < ntasks e -> nid < length (nodes e) -> st e p <> SNone ->
   ((kind e p <> KAct /\ n_kind (nd e nid) = child_kind (kind e p)) \/
    (n_kind (nd e nid) = kind e p /\ is_completed (st e p) = true /\ kind e p <> KWorkflow)) ->
-  SI (sched_v v e nid p).
+  SIa (sched_v v e nid p).
 Proof.
   intros H Hp Hnid Hst Halt. set (e' := sched_v v e nid p).
   assert (L : ntasks e' = S (ntasks e)) by apply ntasks_sched_v.
@@ -395,20 +395,20 @@ Proof.
   - apply H.
   - apply H.
   - apply H.
-  - intros t. unfold e'. rewrite tk_sched_v. destruct (Nat.eqb _ _); [split; reflexivity | apply (si_nh e H t)].
+  - intros t. unfold e'. rewrite tk_sched_v. destruct (Nat.eqb _ _); [split; reflexivity | apply (sia_nh e H t)].
   - intros t Ht. rewrite L in Ht. destruct (Nat.eq_dec t (ntasks e)) as [->|Hne].
     + rewrite Hkn. unfold st. rewrite Hnew. cbn [new_task t_state t_nid]. split; [reflexivity|]. split; [exact Hnid|].
       split; [discriminate|]. intros _.
       destruct Halt as [[A B] | (B & _ & C)]; rewrite B; [destruct (kind e p); simpl; discriminate | exact C].
-    + assert (Ht' : t < ntasks e) by lia. rewrite (Hkd t Ht'), (Hs t Ht'), (Hk t Ht'). apply (si_task e H t Ht').
-  - rewrite L. destruct (si_root e H) as (A & B & C). rewrite (Hk 0 A). split; [lia | auto].
+    + assert (Ht' : t < ntasks e) by lia. rewrite (Hkd t Ht'), (Hs t Ht'), (Hk t Ht'). apply (sia_task e H t Ht').
+  - rewrite L. destruct (sia_root e H) as (A & B & C). rewrite (Hk 0 A). split; [lia | auto].
   - intros t Ht0 Ht. rewrite L in Ht. destruct (Nat.eq_dec t (ntasks e)) as [->|Hne].
     + exists p. rewrite Hnew. cbn [new_task t_prev]. split; [reflexivity|]. split; [exact Hp|].
       rewrite (Hs p Hp), (Hkd p Hp), Hkn. split; [exact Hst|].
       destruct Halt as [[A B] | (B & C & _)]; [left | right]; auto.
-    + assert (Ht' : t < ntasks e) by lia. destruct (si_prev e H t Ht0 Ht') as (q & A & B & C & D). exists q.
+    + assert (Ht' : t < ntasks e) by lia. destruct (sia_prev e H t Ht0 Ht') as (q & A & B & C & D). exists q.
       rewrite (Hk t Ht'), (Hs q ltac:(lia)), (Hkd q ltac:(lia)), (Hkd t Ht'). auto.
-  - change (queue e') with (queue e ++ [ntasks e]). destruct (si_queue e H) as [Q1 Q2]. split.
+  - change (queue e') with (queue e ++ [ntasks e]). destruct (sia_queue e H) as [Q1 Q2]. split.
     + intros t Ht. apply in_app_iff in Ht as [Ht | [<- | []]].
       * destruct (Q1 t Ht) as [A B]. rewrite L, (Hs t A). split; [lia | exact B].
       * rewrite L. split; [lia|]. left. unfold st. now rewrite Hnew.
@@ -417,9 +417,9 @@ Proof.
       inversion Q2; subst. constructor.
       * intros Hin. apply in_app_iff in Hin as [Hin | [<- | []]]; [contradiction | apply Hni; now left].
       * apply IH; auto. intros Hin. apply Hni. now right.
-  - pose proof (si_ps e H) as P. unfold PS in *. destruct (si_root e H) as (A & _). rewrite (Hs 0 A). exact P.
+  - pose proof (sia_ps e H) as P. unfold PS in *. destruct (sia_root e H) as (A & _). rewrite (Hs 0 A). exact P.
 Qed.
-Lemma PX_spawn v X e nid p : SI e -> PX X e -> PX X (sched_v v e nid p).
+Lemma PX_spawn v X e nid p : SIa e -> PX X e -> PX X (sched_v v e nid p).
 Proof.
   intros H HP t Ht Ho. rewrite ntasks_sched_v in Ht. unfold opn in Ho. rewrite st_spawn in Ho.
   change (queue (sched_v v e nid p)) with (queue e ++ [ntasks e]).
@@ -429,17 +429,17 @@ Proof.
     destruct (HP t Ht' Ho) as [Hx | [Hc | [Hc | (Hc & j & Hj & Hp & Hjo)]]]; [now left | right; left; apply in_app_iff; now left | |].
     + right; right; left. rewrite st_spawn. apply Nat.eqb_neq in Hne. now rewrite Hne.
     + right; right; right. rewrite st_spawn. apply Nat.eqb_neq in Hne. rewrite Hne. split; [exact Hc|].
-      exists j. rewrite ntasks_sched_v. split; [lia|]. rewrite parent_spawn_old; [|now apply SI_W | exact Hj]. split; [exact Hp|].
+      exists j. rewrite ntasks_sched_v. split; [lia|]. rewrite parent_spawn_old; [|now apply SIa_W | exact Hj]. split; [exact Hp|].
       unfold opn. rewrite st_spawn. destruct (Nat.eqb_spec j (ntasks e)); [lia | exact Hjo].
 Qed.
 Lemma clause_new e par j : j < ntasks e -> parent e j = Some par -> opn e j -> st e par = SRunning -> clause e par.
 Proof. intros Hj Hp Ho Hr. right; right. split; [exact Hr|]. exists j. auto. Qed.
 
 (* ---------- Scheduler::next takes a task from the queue ---------- *)
-Lemma SI_pop e i q x : SI e -> queue e = i :: q -> SI (add_ev (with_queue e q) x).
+Lemma SIa_pop e i q x : SIa e -> queue e = i :: q -> SIa (add_ev (with_queue e q) x).
 Proof.
   intros H Hq. constructor; try apply H.
-  - change (queue (add_ev (with_queue e q) x)) with q. destruct (si_queue e H) as [Q1 Q2]. rewrite Hq in Q1, Q2. split.
+  - change (queue (add_ev (with_queue e q) x)) with q. destruct (sia_queue e H) as [Q1 Q2]. rewrite Hq in Q1, Q2. split.
     + intros t Ht. apply (Q1 t). now right.
     + now inversion Q2.
 Qed.
@@ -453,6 +453,126 @@ Proof.
     rewrite (sameS_parent _ _ j HS). exact Hp.
 Qed.
 
+
+(* ---------- the hierarchy part of the invariant (C03 on the class): an open task's parent is running, and a parent has at
+   most one open task at a time (tasks under one parent are started one after another) ---------- *)
+Record SI (e : eng) : Prop := {
+  si_a :> SIa e;
+  si_up : forall j p, j < ntasks e -> parent e j = Some p -> opn e j -> st e p = SRunning;
+  si_one : forall j1 j2 p, j1 < ntasks e -> j2 < ntasks e -> parent e j1 = Some p -> parent e j2 = Some p -> opn e j1 -> opn e j2 -> j1 = j2 }.
+Definition si_nodes e (H : SI e) := sia_nodes e H.
+Definition si_exn e (H : SI e) := sia_exn e H.
+Definition si_oof e (H : SI e) := sia_oof e H.
+Definition si_nh e (H : SI e) := sia_nh e H.
+Definition si_task e (H : SI e) := sia_task e H.
+Definition si_root e (H : SI e) := sia_root e H.
+Definition si_prev e (H : SI e) := sia_prev e H.
+Definition si_queue e (H : SI e) := sia_queue e H.
+Definition si_ps e (H : SI e) := sia_ps e H.
+Definition SI_W e (H : SI e) : W e := SIa_W e H.
+Definition SI_fnode e t (H : SI e) := SIa_fnode e t H.
+Definition SI_level e t (H : SI e) := SIa_level e t H.
+Definition SI_root_kind e (H : SI e) := SIa_root_kind e H.
+Definition nochild (e : eng) (p : nat) : Prop := forall j, j < ntasks e -> parent e j = Some p -> opn e j -> False.
+
+Lemma SU_same e e' : sameS e e' -> (forall x, st e' x = st e x) -> SIa e' -> SI e -> SI e'.
+Proof.
+  intros HS Hst Ha H. pose proof HS as (_ & L & _). constructor; [exact Ha | |].
+  - intros j p Hj Hp Ho. rewrite L in Hj. rewrite (sameS_parent _ _ j HS) in Hp. unfold opn in Ho. rewrite Hst in *. now apply (si_up e H j p).
+  - intros j1 j2 p H1 H2 P1 P2 O1 O2. rewrite L in H1, H2. rewrite (sameS_parent _ _ j1 HS) in P1. rewrite (sameS_parent _ _ j2 HS) in P2. unfold opn in O1, O2. rewrite Hst in O1, O2.
+    now apply (si_one e H j1 j2 p).
+Qed.
+Lemma SI_teq e e' : teq e e' -> SI e -> SI e'.
+Proof. intros T H. apply (SU_same e e'); [now apply sameS_teq | intros x; now apply teq_st | apply (SIa_teq e e' T H) | exact H]. Qed.
+Lemma SI_pop e i q x : SI e -> queue e = i :: q -> SI (add_ev (with_queue e q) x).
+Proof.
+  intros H Hq. apply (SU_same e); [split; [reflexivity | split; [reflexivity | intros y; split; reflexivity]] | reflexivity | apply (SIa_pop e i q x (si_a e H) Hq) | exact H].
+Qed.
+(* a parent is on the prev chain: it has a task started directly beneath it *)
+Lemma parent_has_child e j p : parent e j = Some p -> children e p <> [] \/ ntasks e <= j.
+Proof.
+  intros Hp. destruct (Nat.lt_ge_cases j (ntasks e)) as [Hj|Hj]; [left | now right].
+  unfold parent in Hp.
+  assert (G : forall f c, c < ntasks e -> t_prev (tk e c) <> None -> parent_from f e (n_level (tnode e j)) (t_prev (tk e c)) = Some p ->
+              exists c', c' < ntasks e /\ t_prev (tk e c') = Some p).
+  { induction f as [|f IH]; intros c Hc Hn Hf; [discriminate|]. cbn [parent_from] in Hf. destruct (t_prev (tk e c)) as [q|] eqn:Eq; [|congruence].
+    destruct (Nat.ltb _ _); [inversion Hf; subst q; exists c; auto|].
+    destruct (Nat.lt_ge_cases q (ntasks e)) as [Hq|Hq].
+    - destruct (t_prev (tk e q)) as [r|] eqn:Er; [|destruct f; discriminate]. apply (IH q Hq); [congruence | now rewrite Er].
+    - unfold tk in Hf. rewrite (nth_overflow (tasks e) dtask Hq) in Hf. cbn in Hf. destruct f; discriminate. }
+  destruct (t_prev (tk e j)) as [q|] eqn:Eq; [|cbn in Hp; discriminate].
+  destruct (G _ j Hj ltac:(congruence) ltac:(rewrite Eq; exact Hp)) as (c & Hc & Hpc).
+  intros Hnil. assert (Hin : In c (children e p)).
+  { unfold children. apply filter_In. split; [apply in_seq; unfold ntasks in Hc; lia | rewrite Hpc; apply Nat.eqb_refl]. }
+  rewrite Hnil in Hin. destruct Hin.
+Qed.
+Lemma nochild_nil e p : children e p = [] -> nochild e p.
+Proof. intros Hn j Hj Hp _. destruct (parent_has_child e j p Hp) as [H | H]; [contradiction | lia]. Qed.
+Lemma nochild_act e p : SIa e -> kind e p = KAct -> nochild e p.
+Proof.
+  intros H Hk j Hj Hp _. destruct (parent_level e j p H Hj Hp) as [_ Hl]. rewrite Hk in Hl. cbn [lvl_of] in Hl.
+  destruct (kind e j); cbn [lvl_of] in Hl; lia.
+Qed.
+(* writing a state to task i *)
+Lemma SI_ss site e i s : SI e -> i < ntasks e -> okst s = true -> s <> SNone ->
+  (kind e i = KAct -> s <> SRunning) ->
+  (is_completed s = false -> is_completed (st e i) = false /\ ~ In i (queue e)) ->
+  (s <> SRunning -> nochild e i) ->
+  SI (set_state site e i s).
+Proof.
+  intros H Hi Hok Hnn Hact Hopen Hkids. pose proof (sameS_set_state site e i s) as HS.
+  assert (Ho : forall j, opn (set_state site e i s) j -> opn e j).
+  { intros j. unfold opn. rewrite (st_ss site e i s j Hi). destruct (Nat.eqb_spec j i) as [->|]; [|auto]. intros Hs. now apply Hopen. }
+  constructor; [apply SIa_ss; auto; apply (si_a e H) | |].
+  - intros j p Hj Hp Hjo. rewrite ntasks_set_state in Hj. rewrite (sameS_parent _ _ j HS) in Hp. rewrite (st_ss site e i s p Hi).
+    destruct (Nat.eqb_spec p i) as [->|Hne]; [|apply (si_up e H j p Hj Hp (Ho j Hjo))].
+    destruct (TaskState_eq_dec s SRunning) as [->|Hns]; [reflexivity|]. exfalso. apply (Hkids Hns j Hj Hp (Ho j Hjo)).
+  - intros j1 j2 p H1 H2 P1 P2 O1 O2. rewrite ntasks_set_state in H1, H2. rewrite (sameS_parent _ _ j1 HS) in P1. rewrite (sameS_parent _ _ j2 HS) in P2.
+    apply (si_one e H j1 j2 p); auto.
+Qed.
+(* starting a task: the parent of the new task is running and has no other open task *)
+Lemma SI_spawn v e nid p : SI e -> p < ntasks e -> nid < length (nodes e) -> st e p <> SNone ->
+  ((kind e p <> KAct /\ n_kind (nd e nid) = child_kind (kind e p) /\ st e p = SRunning /\ nochild e p) \/
+   (n_kind (nd e nid) = kind e p /\ is_completed (st e p) = true /\ kind e p <> KWorkflow /\
+    forall pp, parent e p = Some pp -> st e pp = SRunning /\ nochild e pp)) ->
+  SI (sched_v v e nid p).
+Proof.
+  intros H Hp Hnid Hst Halt. set (e' := sched_v v e nid p).
+  assert (Ha : SIa e').
+  { apply SIa_spawn; auto; [apply (si_a e H)|]. destruct Halt as [(A & B & _) | (A & B & C & _)]; [left | right]; auto. }
+  assert (L : ntasks e' = S (ntasks e)) by apply ntasks_sched_v.
+  assert (Hs : forall q, st e' q = if Nat.eqb q (ntasks e) then SNone else st e q) by (intros q; apply st_spawn).
+  assert (Hpo : forall t, t < ntasks e -> parent e' t = parent e t) by (intros t Ht; apply parent_spawn_old; [apply (SI_W e H) | exact Ht]).
+  assert (Hnewp : forall par, parent e' (ntasks e) = Some par -> st e par = SRunning /\ nochild e par /\ par < ntasks e).
+  { intros par Hpar.
+    assert (Hnewprev : t_prev (tk e' (ntasks e)) = Some p) by (unfold e'; rewrite tk_sched_v; unfold ntasks; now rewrite Nat.eqb_refl).
+    assert (Hkn : kind e' (ntasks e) = n_kind (nd e nid)) by (unfold e'; rewrite kind_spawn; now rewrite Nat.eqb_refl).
+    assert (Hkp : kind e' p = kind e p) by (unfold e'; rewrite kind_spawn; destruct (Nat.eqb_spec p (ntasks e)); [lia | reflexivity]).
+    assert (Hlt : par < ntasks e) by (pose proof (parent_lt e' (ntasks e) par (SIa_W e' Ha) ltac:(lia) Hpar); lia).
+    destruct Halt as [(A & B & C & D) | (A & B & C & D)].
+    - rewrite (parent_child e' (ntasks e) p Ha) in Hpar; try lia; auto; [|now rewrite Hkp | now rewrite Hkn, Hkp].
+      inversion Hpar; subst par. auto.
+    - rewrite (parent_nextlink e' (ntasks e) p Ha) in Hpar; try lia; auto; [|now rewrite Hkn, Hkp].
+      rewrite (Hpo p Hp) in Hpar. destruct (D par Hpar). auto. }
+  constructor; [exact Ha | |].
+  - intros j q Hj Hq Hjo. rewrite L in Hj. rewrite Hs.
+    destruct (Nat.eq_dec j (ntasks e)) as [->|Hne].
+    + destruct (Hnewp q Hq) as (A & _ & B). destruct (Nat.eqb_spec q (ntasks e)); [lia | exact A].
+    + assert (Hj' : j < ntasks e) by lia. rewrite (Hpo j Hj') in Hq. unfold opn in Hjo. rewrite Hs in Hjo.
+      destruct (Nat.eqb_spec j (ntasks e)); [lia|].
+      pose proof (parent_lt e j q (SI_W e H) Hj' Hq). destruct (Nat.eqb_spec q (ntasks e)); [lia|]. apply (si_up e H j q Hj' Hq Hjo).
+  - intros j1 j2 q H1 H2 P1 P2 O1 O2. rewrite L in H1, H2.
+    assert (Hold : forall j, j < ntasks e -> opn e' j -> opn e j).
+    { intros j Hj. unfold opn. rewrite Hs. destruct (Nat.eqb_spec j (ntasks e)); [lia | auto]. }
+    destruct (Nat.eq_dec j1 (ntasks e)) as [->|N1], (Nat.eq_dec j2 (ntasks e)) as [->|N2]; auto.
+    + exfalso. destruct (Hnewp q P1) as (_ & Hnc & _). assert (Hj : j2 < ntasks e) by lia. rewrite (Hpo j2 Hj) in P2. apply (Hnc j2 Hj P2 (Hold j2 Hj O2)).
+    + exfalso. destruct (Hnewp q P2) as (_ & Hnc & _). assert (Hj : j1 < ntasks e) by lia. rewrite (Hpo j1 Hj) in P1. apply (Hnc j1 Hj P1 (Hold j1 Hj O1)).
+    + assert (Hj1 : j1 < ntasks e) by lia. assert (Hj2 : j2 < ntasks e) by lia. rewrite (Hpo j1 Hj1) in P1. rewrite (Hpo j2 Hj2) in P2.
+      apply (si_one e H j1 j2 q); auto.
+Qed.
+Lemma emit_teqS f e i : SI e -> st e i <> SError -> (kind e i = KWorkflow -> i = 0) -> teq e (emit (S f) e i).
+Proof. intros H. apply emit_teq. apply (si_nh e H). Qed.
+
 (* ---------- review: whoever is reviewed ends with a reason to be open, or closed ---------- *)
 Definition Good (e : eng) : Prop := SI e /\ Prog e.
 Lemma Good_teq e e' : teq e e' -> Good e -> Good e'.
@@ -463,21 +583,37 @@ Proof.
   pose proof (children_gt _ _ _ (SI_W e H) Hc) as Hgt.
   destruct (si_prev e H c ltac:(lia) Hcn) as (q & A & B & C & D). rewrite Hpr in A. inversion A; subst q.
   destruct D as [[D1 D2] | [_ D2]]; [|rewrite Hr in D2; discriminate].
-  apply (clause_new e p c); auto. apply parent_child; auto. lia.
+  apply (clause_new e p c); auto. apply (parent_child e c p (si_a e H)); auto; lia.
 Qed.
 Lemma is_refl s : is s s = true. Proof. destruct s; reflexivity. Qed.
 Lemma okst_open s : okst s = true -> is s SPending = false /\ is s SSkipped = false /\ is s SError = false.
 Proof. destruct s; simpl; intros; try discriminate; auto. Qed.
 
-Lemma review_good : forall F cv from e p, SI e -> PX (fun t => t = p /\ st e t = SRunning) e -> p < ntasks e ->
+Lemma nochild_teq e e' p : teq e e' -> nochild e p -> nochild e' p.
+Proof.
+  intros T H j Hj Hp Ho. rewrite (teq_len _ _ T) in Hj. rewrite (teq_parent _ _ j T) in Hp. unfold opn in Ho. rewrite (teq_st _ _ j T) in Ho.
+  exact (H j Hj Hp Ho).
+Qed.
+(* after task i (open, with parent pp) has been closed, pp is running and has no open task left *)
+Lemma after_close site e i s pp : SI e -> i < ntasks e -> opn e i -> is_completed s = true -> parent e i = Some pp ->
+  st (set_state site e i s) pp = SRunning /\ nochild (set_state site e i s) pp.
+Proof.
+  intros H Hi Ho Hs Hp. pose proof (parent_lt e i pp (SI_W e H) Hi Hp) as Hlt. split.
+  - rewrite (st_ss site e i s pp Hi). destruct (Nat.eqb_spec pp i); [lia|]. apply (si_up e H i pp Hi Hp Ho).
+  - intros j Hj Hpj Hjo. rewrite ntasks_set_state in Hj. rewrite (sameS_parent _ _ j (sameS_set_state site e i s)) in Hpj.
+    unfold opn in Hjo. rewrite (st_ss site e i s j Hi) in Hjo. destruct (Nat.eqb_spec j i) as [->|Hne]; [congruence|].
+    apply Hne. apply (si_one e H j i pp); auto.
+Qed.
+Lemma review_good : forall F cv from e p, SI e -> PX (fun t => t = p /\ st e t = SRunning) e -> nochild e p -> p < ntasks e ->
   lvl_of (kind e p) + 2 <= F -> Good (review F cv from e p).
 Proof.
-  induction F as [|f IH]; intros cv from e p H HP Hp HF; [lia|].
+  induction F as [|f IH]; intros cv from e p H HP Hnc Hp HF; [lia|].
   rewrite review_S. destruct (si_nh e H from) as [_ Hev]. rewrite Hev.
   set (e0 := update_data e p (outputs e from)).
   assert (T0 : teq e e0) by apply teq_update_data.
   assert (H0 : SI e0) by (eapply SI_teq; eauto).
   assert (HP0 : PX (fun t => t = p /\ st e t = SRunning) e0) by (eapply PX_teq; eauto).
+  assert (Hnc0 : nochild e0 p) by (eapply nochild_teq; eauto).
   assert (L0 : ntasks e0 = ntasks e) by (now apply teq_len).
   assert (Hp0 : p < ntasks e0) by lia.
   assert (S0 : forall t, st e0 t = st e t) by (intros t; now apply teq_st).
@@ -515,7 +651,7 @@ Proof.
     destruct (forallb _ (children e0 0)) eqn:Ed; cbn [fst snd].
     + destruct (Hclose 14) as (H1 & P1 & S1). set (e1 := set_state 14 e0 0 SCompleted) in *.
       rewrite S1, Hr0. cbn [is_completed is andb negb TaskState_beq].
-      assert (T2 : teq e1 (emit (S f') e1 0)) by (apply emit_teq; [apply H1 | rewrite S1; discriminate | auto]).
+      assert (T2 : teq e1 (emit (S f') e1 0)) by (apply emit_teqS; [exact H1 | rewrite S1; discriminate | auto]).
       assert (Par1 : parent e1 0 = parent e0 0) by (apply sameS_parent, sameS_set_state).
       rewrite (teq_parent _ _ 0 T2), Par1.
       assert (Hpar : parent e0 0 = None) by (unfold parent; destruct (si_root e0 H0) as (_ & -> & _); reflexivity).
@@ -550,15 +686,16 @@ Proof.
         assert (H2 : SI e2).
         { apply SI_spawn; auto; [now rewrite Hnodes1 | rewrite S1; discriminate|].
           right. unfold nd. rewrite Hnodes1, Kp1. unfold kind at 1. split; [exact Fk|]. rewrite S1. split; [reflexivity|].
-          unfold kind. intros Hk. rewrite Hk in Fw. discriminate. }
-        assert (P2 : PX (fun t => parent e0 p = Some t /\ st e0 t = SRunning) e2) by (apply PX_spawn; auto).
+          split; [unfold kind; intros Hk; rewrite Hk in Fw; discriminate|].
+          intros pp Hpp. rewrite Par1 in Hpp. apply (after_close 16 e0 p SCompleted pp H0 Hp0); auto. unfold opn. now rewrite Hr0. }
+        assert (P2 : PX (fun t => parent e0 p = Some t /\ st e0 t = SRunning) e2) by (apply PX_spawn; auto; apply (si_a e1 H1)).
         assert (S2p : st e2 p = SCompleted) by (unfold e2, sched_next; rewrite st_spawn; destruct (Nat.eqb_spec p (ntasks e1)); [lia | exact S1]).
         assert (G2 : Good e2).
         { split; [exact H2|]. apply (PX_weaken _ _ _ P2). intros t [Hpt Hrt] Ht Ho. right.
           assert (Hlt : t < p) by (apply (parent_lt e0 p t (SI_W e0 H0) Hp0 Hpt)).
           assert (Hnew : ntasks e1 < ntasks e2) by (unfold e2, sched_next; rewrite ntasks_sched_v; lia).
           apply (clause_new e2 t (ntasks e1)); auto.
-          - rewrite (parent_nextlink e2 (ntasks e1) p); auto; try lia.
+          - rewrite (parent_nextlink e2 (ntasks e1) p (si_a e2 H2)); auto; try lia.
             + unfold e2, sched_next. rewrite parent_spawn_old; [now rewrite Par1 | now apply SI_W | exact Hp1].
             + unfold e2, sched_next. rewrite tk_sched_v. unfold ntasks. now rewrite Nat.eqb_refl.
             + unfold e2, sched_next. rewrite !kind_spawn, Nat.eqb_refl. destruct (Nat.eqb_spec p (ntasks e1)); [lia|].
@@ -567,12 +704,12 @@ Proof.
           - unfold e2, sched_next. rewrite st_spawn. destruct (Nat.eqb_spec t (ntasks e1)); [lia|].
             unfold e1. rewrite (st_ss 16 e0 p SCompleted t Hp0). destruct (Nat.eqb_spec t p); [lia | exact Hrt]. }
         rewrite S2p. cbn [is_completed is andb negb TaskState_beq].
-        apply (Good_teq e2); [|exact G2]. apply emit_teq; [apply H2 | rewrite S2p; discriminate|].
+        apply (Good_teq e2); [|exact G2]. apply emit_teqS; [exact H2 | rewrite S2p; discriminate|].
         intros Hk. exfalso. unfold e2, sched_next in Hk. rewrite kind_spawn in Hk. destruct (Nat.eqb_spec p (ntasks e1)); [lia|].
         rewrite Kp1, Ek in Hk. discriminate.
       * rewrite S1. cbn [is_completed is andb negb TaskState_beq].
         assert (T2 : teq e1 (emit (S f') e1 p)).
-        { apply emit_teq; [apply H1 | rewrite S1; discriminate|]. intros Hk. assert (Kp1 : kind e1 p = kind e0 p) by (apply sameS_kind, sameS_set_state). rewrite Kp1, Ek in Hk. discriminate. }
+        { apply emit_teqS; [exact H1 | rewrite S1; discriminate|]. intros Hk. assert (Kp1 : kind e1 p = kind e0 p) by (apply sameS_kind, sameS_set_state). rewrite Kp1, Ek in Hk. discriminate. }
         set (e2 := emit (S f') e1 p) in *.
         assert (H2 : SI e2) by (eapply SI_teq; eauto).
         assert (P2 : PX (fun t => parent e0 p = Some t /\ st e0 t = SRunning) e2) by (eapply PX_teq; eauto).
@@ -581,8 +718,9 @@ Proof.
         -- destruct (parent_level e0 p pp H0 Hp0 Epp) as [Hlt Hlv].
            assert (Spp : st e2 pp = st e0 pp).
            { rewrite (teq_st _ _ pp T2). unfold e1. rewrite (st_ss 16 e0 p SCompleted pp Hp0). destruct (Nat.eqb_spec pp p); [lia | reflexivity]. }
-           apply IH; auto.
+           apply IH; [exact H2 | | | |].
            ++ apply (PX_weaken _ _ _ P2). intros t [Ht1 Ht2] _ _. left. inversion Ht1; subst t. split; [reflexivity | now rewrite Spp].
+           ++ apply (nochild_teq e1 e2 pp T2). apply (after_close 16 e0 p SCompleted pp H0 Hp0); auto. unfold opn. now rewrite Hr0.
            ++ rewrite (teq_len _ _ T2). lia.
            ++ assert (Kpp : kind e1 pp = kind e0 pp) by (apply sameS_kind, sameS_set_state). rewrite (teq_kind _ _ pp T2), Kpp. rewrite <- K0 in HF. rewrite Ek in Hlv. cbn [lvl_of] in *. lia.
         -- split; [exact H2|]. apply (PX_weaken _ _ _ P2). intros t [Hx _]. discriminate.
@@ -598,10 +736,11 @@ Definition tail (f : nat) (cv : vars) (e : eng) (i : nat) (nxo : option nat) : e
   if negb isn && negb (t_evproc (tk e2 i)) then match parent e2 i with Some p => review f cv i e2 p | None => e2 end else e2.
 Lemma tail_good f cv e i nxo : SI e -> i < ntasks e -> is_completed (st e i) = true -> kind e i <> KWorkflow ->
   PX (fun t => parent e i = Some t /\ st e t = SRunning) e ->
+  (forall pp, parent e i = Some pp -> st e pp = SRunning /\ nochild e pp) ->
   (nxo = None \/ nxo = n_next (tnode e i)) -> lvl_of (kind e i) + 1 <= f ->
   Good (tail f cv e i nxo).
 Proof.
-  intros H Hi Hc Hk HP Hnx Hf. unfold tail.
+  intros H Hi Hc Hk HP Hpar Hnx Hf. unfold tail.
   assert (Hf' : exists f', f = S f') by (destruct f; [lia | eauto]). destruct Hf' as [f' ->].
   assert (Hne : st e i <> SError) by (destruct (si_task e H i Hi) as (Hok & _); destruct (st e i); simpl in *; congruence).
   destruct nxo as [nx|].
@@ -611,8 +750,8 @@ Proof.
     apply Nat.ltb_lt in Fl. apply nkb_eq in Fk.
     set (e1 := sched_next e nx i).
     assert (H1 : SI e1).
-    { apply SI_spawn; [exact H | exact Hi | exact Fl | intros Hn; rewrite Hn in Hc; discriminate | right; split; [exact Fk | split; [exact Hc | exact Hk]]]. }
-    assert (P1 : PX (fun t => parent e i = Some t /\ st e t = SRunning) e1) by (apply PX_spawn; auto).
+    { apply SI_spawn; [exact H | exact Hi | exact Fl | intros Hn; rewrite Hn in Hc; discriminate | right; split; [exact Fk | split; [exact Hc | split; [exact Hk | exact Hpar]]]]. }
+    assert (P1 : PX (fun t => parent e i = Some t /\ st e t = SRunning) e1) by (apply PX_spawn; auto; apply (si_a e H)).
     assert (Hnew : ntasks e1 = S (ntasks e)) by (apply ntasks_sched_v).
     assert (S1 : forall t, t < ntasks e -> st e1 t = st e t).
     { intros t Ht. unfold e1, sched_next. rewrite st_spawn. destruct (Nat.eqb_spec t (ntasks e)); [lia | reflexivity]. }
@@ -620,7 +759,7 @@ Proof.
     { split; [exact H1|]. apply (PX_weaken _ _ _ P1). intros t [Hpt Hrt] Ht Ho. right.
       assert (Hlt : t < i) by (apply (parent_lt e i t (SI_W e H) Hi Hpt)).
       apply (clause_new e1 t (ntasks e)); auto; [lia | | |].
-      - rewrite (parent_nextlink e1 (ntasks e) i); auto; try lia.
+      - rewrite (parent_nextlink e1 (ntasks e) i (si_a e1 H1)); auto; try lia.
         + unfold e1, sched_next. rewrite parent_spawn_old; [exact Hpt | now apply SI_W | exact Hi].
         + unfold e1, sched_next. rewrite tk_sched_v. unfold ntasks. now rewrite Nat.eqb_refl.
         + unfold e1, sched_next. rewrite !kind_spawn, Nat.eqb_refl. destruct (Nat.eqb_spec i (ntasks e)); [lia | exact Fk].
@@ -643,8 +782,9 @@ Proof.
     destruct (si_nh e2 H2 i) as [_ ->]. cbn [negb andb]. rewrite (teq_parent _ _ i T2).
     destruct (parent e i) as [p|] eqn:Ep.
     + destruct (parent_level e i p H Hi Ep) as [Hlt Hlv].
-      apply review_good; auto.
+      apply review_good; [exact H2 | | | |].
       * apply (PX_weaken _ _ _ P2). intros t [Ht1 Ht2] _ _. left. inversion Ht1; subst t. split; [reflexivity | now rewrite (teq_st _ _ p T2)].
+      * apply (nochild_teq e e2 p T2). apply (Hpar p eq_refl).
       * rewrite (teq_len _ _ T2). lia.
       * rewrite (teq_kind _ _ p T2). lia.
     + split; [exact H2|]. apply (PX_weaken _ _ _ P2). intros t [Hx _]. discriminate.
@@ -653,9 +793,10 @@ Qed.
 (* ---------- a client closes an act ---------- *)
 Lemma next_closed_act F cv e i : SI e -> i < ntasks e -> kind e i = KAct ->
   (st e i = SCompleted \/ st e i = SSubmitted \/ st e i = SRemoved) ->
-  PX (fun t => parent e i = Some t /\ st e t = SRunning) e -> 4 <= F -> Good (next F cv e i).
+  PX (fun t => parent e i = Some t /\ st e t = SRunning) e ->
+  (forall pp, parent e i = Some pp -> st e pp = SRunning /\ nochild e pp) -> 4 <= F -> Good (next F cv e i).
 Proof.
-  intros H Hi Hk Hs HP HF. destruct F as [|f]; [lia|]. rewrite next_S. rewrite Hk.
+  intros H Hi Hk Hs HP Hpar HF. destruct F as [|f]; [lia|]. rewrite next_S. rewrite Hk.
   assert (Hc : is_completed (st e i) = true) by (destruct Hs as [-> | [-> | ->]]; reflexivity).
   assert (Hkw : kind e i <> KWorkflow) by (rewrite Hk; discriminate).
   assert (Hlv : lvl_of (kind e i) + 1 <= f) by (rewrite Hk; cbn [lvl_of]; lia).
@@ -676,7 +817,8 @@ Qed.
 Lemma Prog_close_act site e i s : Good e -> i < ntasks e -> opn e i -> kind e i = KAct ->
   (s = SCompleted \/ s = SSubmitted \/ s = SRemoved) ->
   let e1 := set_state site e i s in
-  SI e1 /\ PX (fun t => parent e1 i = Some t /\ st e1 t = SRunning) e1 /\ st e1 i = s /\ kind e1 i = KAct /\ i < ntasks e1.
+  SI e1 /\ PX (fun t => parent e1 i = Some t /\ st e1 t = SRunning) e1 /\ st e1 i = s /\ kind e1 i = KAct /\ i < ntasks e1 /\
+  (forall pp, parent e1 i = Some pp -> st e1 pp = SRunning /\ nochild e1 pp).
 Proof.
   intros [H P] Hi Ho Hk Hs e1.
   assert (Hc : is_completed s = true) by (destruct Hs as [-> | [-> | ->]]; reflexivity).
@@ -686,14 +828,16 @@ Proof.
   { apply SI_ss; auto.
     - destruct Hs as [-> | [-> | ->]]; discriminate.
     - intros _. destruct Hs as [-> | [-> | ->]]; discriminate.
-    - intros Hf. congruence. }
-  split; [exact H1|]. split; [|split; [|split]].
+    - intros Hf. congruence.
+    - intros _. apply nochild_act; [apply (si_a e H) | exact Hk]. }
+  split; [exact H1|]. split; [|split; [|split; [|split]]].
   - apply (PX_weaken _ _ _ (PX_close site _ e i s P Hi Hc)). intros t [[] | [Hp Hr]] Ht Ho'. left.
     rewrite (sameS_parent _ _ i HS). split; [exact Hp|]. unfold e1. rewrite (st_ss site e i s t Hi).
     destruct (Nat.eqb_spec t i) as [->|]; [|exact Hr]. apply (parent_lt e i i (SI_W e H) Hi) in Hp. lia.
   - unfold e1. now rewrite (st_ss site e i s i Hi), Nat.eqb_refl.
   - now rewrite (sameS_kind _ _ i HS).
   - unfold e1. now rewrite ntasks_set_state.
+  - intros pp Hpp. rewrite (sameS_parent _ _ i HS) in Hpp. now apply (after_close site e i s pp H Hi Ho Hc).
 Qed.
 Lemma fuel_ge e : exists f, fuel_of e = S (S (S (S f))). Proof. unfold fuel_of. eexists. cbn [Nat.add]. reflexivity. Qed.
 Lemma teq_ret_ok e : teq e (ret_ok e). Proof. unfold ret_ok. eapply teq_trans; [apply teq_persist | apply teq_add_ev]. Qed.
@@ -715,12 +859,12 @@ Proof.
   destruct (is_completed (st e i)) eqn:Eo; [discriminate|]. inversion Ead; subst a'. clear Ead.
   unfold perform. destruct (fuel_ge e) as [f Hf].
   destruct a; simpl in Ha; try discriminate.
-  - destruct (Prog_close_act 22 e i SCompleted G Hi Eo Ek ltac:(auto)) as (H1 & P1 & S1 & K1 & L1).
-    apply (Good_teq _ _ (teq_ret_ok _)). apply next_closed_act; [exact H1 | exact L1 | exact K1 | rewrite S1; auto | exact P1 | rewrite Hf; lia].
-  - destruct (Prog_close_act 23 e i SSubmitted G Hi Eo Ek ltac:(auto)) as (H1 & P1 & S1 & K1 & L1).
-    apply (Good_teq _ _ (teq_ret_ok _)). apply next_closed_act; [exact H1 | exact L1 | exact K1 | rewrite S1; auto | exact P1 | rewrite Hf; lia].
-  - destruct (Prog_close_act 24 e i SRemoved G Hi Eo Ek ltac:(auto)) as (H1 & P1 & S1 & K1 & L1).
-    apply (Good_teq _ _ (teq_ret_ok _)). apply next_closed_act; [exact H1 | exact L1 | exact K1 | rewrite S1; auto | exact P1 | rewrite Hf; lia].
+  - destruct (Prog_close_act 22 e i SCompleted G Hi Eo Ek ltac:(auto)) as (H1 & P1 & S1 & K1 & L1 & Q1).
+    apply (Good_teq _ _ (teq_ret_ok _)). apply next_closed_act; [exact H1 | exact L1 | exact K1 | rewrite S1; auto | exact P1 | exact Q1 | rewrite Hf; lia].
+  - destruct (Prog_close_act 23 e i SSubmitted G Hi Eo Ek ltac:(auto)) as (H1 & P1 & S1 & K1 & L1 & Q1).
+    apply (Good_teq _ _ (teq_ret_ok _)). apply next_closed_act; [exact H1 | exact L1 | exact K1 | rewrite S1; auto | exact P1 | exact Q1 | rewrite Hf; lia].
+  - destruct (Prog_close_act 24 e i SRemoved G Hi Eo Ek ltac:(auto)) as (H1 & P1 & S1 & K1 & L1 & Q1).
+    apply (Good_teq _ _ (teq_ret_ok _)). apply next_closed_act; [exact H1 | exact L1 | exact K1 | rewrite S1; auto | exact P1 | exact Q1 | rewrite Hf; lia].
 Qed.
 
 (* ---------- the scheduler runs a queued task ---------- *)
@@ -741,41 +885,36 @@ Proof.
 Qed.
 Lemma spawn_children X i : forall l e, SI e -> PX X e -> i < ntasks e -> st e i = SRunning -> kind e i <> KAct ->
   (forall c, In c l -> c < length (nodes e) /\ n_kind (nd e c) = child_kind (kind e i)) ->
-  (forall j, In j (children e i) -> st e j = SNone) ->
+  children e i = [] -> length l <= 1 ->
   let e' := sched_nodes e l i in
   SI e' /\ PX X e' /\ st e' i = SRunning /\ kind e' i = kind e i /\ i < ntasks e' /\ tnode e' i = tnode e i /\
   (forall j, In j (children e' i) -> st e' j = SNone) /\ (l <> [] -> children e' i <> []).
 Proof.
-  induction l as [|c l IH]; intros e H P Hi Hr Hk Hl Hch e'.
-  - unfold e', sched_nodes. cbn [fold_left]. refine (conj H (conj P (conj Hr (conj eq_refl (conj Hi (conj eq_refl (conj Hch _))))))). intros Hx. now destruct Hx.
-  - unfold e', sched_nodes. cbn [fold_left]. fold (sched_nodes (sched e c i) l i).
+  intros l e H P Hi Hr Hk Hl Hch Hlen e'. destruct l as [|c [|c2 l]]; [| |cbn in Hlen; lia].
+  - unfold e', sched_nodes. cbn [fold_left]. refine (conj H (conj P (conj Hr (conj eq_refl (conj Hi (conj eq_refl (conj _ _))))))).
+    + intros j Hj. rewrite Hch in Hj. destruct Hj.
+    + intros Hx. now destruct Hx.
+  - unfold e', sched_nodes. cbn [fold_left].
     destruct (Hl c (or_introl eq_refl)) as [Hc1 Hc2].
     set (e1 := sched e c i).
-    assert (H1 : SI e1) by (apply SI_spawn; auto; rewrite Hr; discriminate).
-    assert (P1 : PX X e1) by (apply PX_spawn; auto).
+    assert (H1 : SI e1).
+    { apply SI_spawn; auto; [rewrite Hr; discriminate|]. left. split; [exact Hk|]. split; [exact Hc2|]. split; [exact Hr | now apply nochild_nil]. }
+    assert (P1 : PX X e1) by (apply PX_spawn; auto; apply (si_a e H)).
     assert (L1 : ntasks e1 = S (ntasks e)) by apply ntasks_sched_v.
     assert (S1 : st e1 i = SRunning) by (unfold e1, sched; rewrite st_spawn; destruct (Nat.eqb_spec i (ntasks e)); [lia | exact Hr]).
     assert (K1 : kind e1 i = kind e i) by (unfold e1, sched; rewrite kind_spawn; destruct (Nat.eqb_spec i (ntasks e)); [lia | reflexivity]).
     assert (T1 : tnode e1 i = tnode e i) by (unfold tnode, e1, sched; rewrite tk_sched_v; unfold ntasks in Hi; destruct (Nat.eqb_spec i (length (tasks e))); [lia | reflexivity]).
-    assert (C1 : children e1 i = children e i ++ [ntasks e]) by (unfold e1, sched; rewrite children_spawn, Nat.eqb_refl; reflexivity).
-    assert (Hch1 : forall j, In j (children e1 i) -> st e1 j = SNone).
-    { intros j Hj. rewrite C1 in Hj. unfold e1, sched. rewrite st_spawn. destruct (Nat.eqb_spec j (ntasks e)); [reflexivity|].
-      apply in_app_iff in Hj as [Hj | [Hj | []]]; [now apply Hch | congruence]. }
-    destruct (IH e1 H1 P1 ltac:(lia) S1 ltac:(now rewrite K1)) as (A & B & C & D & E & F & G & _); auto.
-    { intros c' Hc'. rewrite K1. apply (Hl c'). now right. }
-    refine (conj A (conj B (conj C (conj _ (conj E (conj _ (conj G _))))))); [congruence | congruence |].
-    intros _ Hnil.
-    (* the first child stays a child *)
-    assert (Hin : forall l' ee, In (ntasks e) (children ee i) -> In (ntasks e) (children (sched_nodes ee l' i) i)).
-    { induction l' as [|c' l' IHl']; intros ee Hee; [exact Hee|]. unfold sched_nodes. cbn [fold_left]. apply IHl'.
-      unfold sched. rewrite children_spawn. apply in_app_iff. now left. }
-    specialize (Hin l e1). rewrite C1 in Hin. specialize (Hin ltac:(apply in_app_iff; right; now left)).
-    rewrite Hnil in Hin. destruct Hin.
+    assert (C1 : children e1 i = [ntasks e]) by (unfold e1, sched; rewrite children_spawn, Nat.eqb_refl, Hch; reflexivity).
+    refine (conj H1 (conj P1 (conj S1 (conj K1 (conj _ (conj T1 (conj _ _))))))); [lia | |].
+    + intros j Hj. rewrite C1 in Hj. destruct Hj as [<- | []]. unfold e1, sched. rewrite st_spawn, Nat.eqb_refl. reflexivity.
+    + intros _. rewrite C1. discriminate.
 Qed.
 
+Lemma filter_len {A} (g : A -> bool) l : length (filter g l) <= length l.
+Proof. induction l as [|x l IH]; cbn [filter length]; [lia|]. destruct (g x); cbn [length]; lia. Qed.
 Lemma frag_facts e t : SI e -> t < ntasks e ->
   let n := tnode e t in
-  n_if n = None /\ n_setup n = [] /\ n_kind n <> KBranch /\
+  n_if n = None /\ n_setup n = [] /\ n_kind n <> KBranch /\ length (normal_children n) <= 1 /\
   (n_kind n = KAct -> sp_u (n_spec n) = UIrq /\ n_children n = []) /\
   (forall c, In c (normal_children n) -> c < length (nodes e) /\ n_kind (nd e c) = child_kind (n_kind n)).
 Proof.
@@ -784,6 +923,9 @@ Proof.
   split; [destruct (n_if n); [discriminate | reflexivity]|].
   split; [destruct (n_setup n); [reflexivity | discriminate]|].
   split; [intros Hk; rewrite Hk in *; discriminate|].
+  split.
+  { match goal with Hx : Nat.leb (length (n_children n)) 1 = true |- _ => apply Nat.leb_le in Hx; rename Hx into Hlen end.
+    unfold normal_children, children_in. rewrite map_length. pose proof (filter_len (fun c => okind_beq (fst c) ONormal) (n_children n)). lia. }
   split.
   - intros Hk. rewrite Hk in *. cbn [nkind_beq] in *. match goal with Hx : _ && _ = true |- _ => apply andb_true_iff in Hx as [A B] end.
     split; [destruct (sp_u _); try discriminate; reflexivity | destruct (n_children n); [reflexivity | discriminate]].
@@ -889,7 +1031,9 @@ Proof.
   assert (Qd : queue ed = queue e) by apply Td.
   assert (HS : sameS e a) by (apply (sameS_trans e ed a); [now apply sameS_teq | apply sameS_set_state]).
   split; [|split; [|split; [|split; [|split; [|split]]]]].
-  - apply SI_ss; auto; try discriminate. intros _. split; [rewrite (teq_st _ _ i Td), Hs; reflexivity | rewrite Qd; exact Hq].
+  - apply SI_ss; auto; try discriminate.
+    + intros _. split; [rewrite (teq_st _ _ i Td), Hs; reflexivity | rewrite Qd; exact Hq].
+    + intros _. apply nochild_nil. rewrite (teq_children _ _ i Td). apply no_children; [exact H | exact Hs].
   - apply PX_open; auto.
   - unfold a. now rewrite (st_ss 1 ed i SReady i Hid), Nat.eqb_refl.
   - exact HS.
@@ -908,7 +1052,7 @@ Lemma run_state f e1 i k : (k = KWorkflow \/ k = KStep) -> SI e1 -> PX (fun t =>
 Proof.
   intros Hk H1 P1 Hi1 S1 K1 Q1 C1 e2. unfold e2, exec_run.
   set (er := set_state 7 e1 i SRunning).
-  assert (Hr : SI er) by (apply SI_ss; auto; try discriminate; [destruct Hk as [-> | ->]; rewrite K1; discriminate | intros _; rewrite S1; auto]).
+  assert (Hr : SI er) by (apply SI_ss; auto; try discriminate; [destruct Hk as [-> | ->]; rewrite K1; discriminate | intros _; rewrite S1; auto | intros Hx; now destruct Hx]).
   assert (Pr : PX (fun t => t = i) er) by (apply PX_open; auto).
   assert (Sr : st er i = SRunning) by (unfold er; now rewrite (st_ss 7 e1 i SRunning i Hi1), Nat.eqb_refl).
   assert (HSr : sameS e1 er) by apply sameS_set_state.
@@ -916,7 +1060,7 @@ Proof.
   assert (Tnr : tnode er i = tnode e1 i) by (now apply sameS_tnode).
   assert (Hir : i < ntasks er) by (unfold er; now rewrite ntasks_set_state).
   assert (Cr : children er i = []) by (now rewrite (sameS_children _ _ i HSr)).
-  destruct (frag_facts er i Hr Hir) as (_ & _ & _ & _ & Fch). cbv zeta in Fch.
+  destruct (frag_facts er i Hr Hir) as (_ & _ & _ & Flen & _ & Fch). cbv zeta in Fch, Flen.
   clearbody er. cbv zeta. rewrite Kr.
   assert (Hspawn : forall l, l = normal_children (tnode er i) -> l <> [] ->
             let er2 := sched_nodes er l i in let e2 := emit (S f) er2 i in
@@ -925,10 +1069,11 @@ Proof.
   { intros l Hl Hne er2 e2'.
     destruct (spawn_children (fun t => t = i) i l er Hr Pr Hir Sr ltac:(destruct Hk as [-> | ->]; rewrite Kr; discriminate)) as (A & B & C & D & E & F & G & Hne').
     { intros c Hc. rewrite Hl in Hc. destruct (Fch c Hc) as [X1 X2]. split; [exact X1|]. exact X2. }
-    { intros j Hj. rewrite Cr in Hj. destruct Hj. }
+    { exact Cr. }
+    { rewrite Hl. exact Flen. }
     fold er2 in A, B, C, D, E, F, G, Hne'.
     assert (T2 : teq er2 e2').
-    { apply emit_teq; [apply A | rewrite C; discriminate|]. intros Hkw. destruct (Nat.eq_dec i 0) as [->|Hn0]; [reflexivity|].
+    { apply emit_teqS; [exact A | rewrite C; discriminate|]. intros Hkw. destruct (Nat.eq_dec i 0) as [->|Hn0]; [reflexivity|].
       exfalso. destruct (si_task er2 A i E) as (_ & _ & _ & Hwf). apply Hwf; [lia | exact Hkw]. }
     split; [eapply SI_teq; eauto|]. split; [rewrite (teq_len _ _ T2); exact E|]. split; [rewrite (teq_kind _ _ i T2); congruence|].
     split; [rewrite (teq_tnode _ _ i T2); congruence|]. split; [rewrite (teq_st _ _ i T2); exact C|].
@@ -938,14 +1083,14 @@ Proof.
   - destruct (normal_children (tnode er i)) as [|c ch] eqn:Ech.
     + set (er2 := set_state 8 er i SCompleted).
       assert (i = 0) by (destruct (Nat.eq_dec i 0) as [->|Hn0]; [reflexivity | exfalso; destruct (si_task er Hr i Hir) as (_ & _ & _ & Hwf); apply Hwf; [lia | exact Kr]]). subst i.
-      assert (Hr2 : SI er2) by (apply SI_ss; auto; discriminate).
+      assert (Hr2 : SI er2) by (apply SI_ss; auto; try discriminate; intros _; now apply nochild_nil).
       assert (Pr2 : Prog er2).
       { apply (PX_weaken _ _ _ (PX_close 8 _ er 0 SCompleted Pr Hir eq_refl)). intros t [-> | [Hp _]] Ht Ho.
         - unfold opn, er2 in Ho. rewrite (st_ss 8 er 0 SCompleted 0 Hir) in Ho. discriminate.
         - unfold parent in Hp. destruct (si_root er Hr) as (_ & Hp0 & _). rewrite Hp0 in Hp. discriminate. }
       assert (Sr2 : st er2 0 = SCompleted) by (unfold er2; now rewrite (st_ss 8 er 0 SCompleted 0 Hir)).
       assert (HS2 : sameS er er2) by apply sameS_set_state.
-      assert (T2 : teq er2 (emit (S f) er2 0)) by (apply emit_teq; [apply Hr2 | rewrite Sr2; discriminate | auto]).
+      assert (T2 : teq er2 (emit (S f) er2 0)) by (apply emit_teqS; [exact Hr2 | rewrite Sr2; discriminate | auto]).
       split; [eapply SI_teq; eauto|]. split; [rewrite (teq_len _ _ T2); unfold er2; now rewrite ntasks_set_state|].
       split; [rewrite (teq_kind _ _ 0 T2), (sameS_kind _ _ 0 HS2); exact Kr|].
       split; [rewrite (teq_tnode _ _ 0 T2), (sameS_tnode _ _ 0 HS2); exact Tnr|].
@@ -955,7 +1100,7 @@ Proof.
   - destruct (normal_children (tnode er i)) as [|c ch] eqn:Ech.
     + unfold sched_nodes. cbn [fold_left].
       assert (T2 : teq er (emit (S f) er i)).
-      { apply emit_teq; [apply Hr | rewrite Sr; discriminate|]. intros Hkw. rewrite Kr in Hkw. discriminate. }
+      { apply emit_teqS; [exact Hr | rewrite Sr; discriminate|]. intros Hkw. rewrite Kr in Hkw. discriminate. }
       split; [eapply SI_teq; eauto|]. split; [rewrite (teq_len _ _ T2); exact Hir|]. split; [rewrite (teq_kind _ _ i T2); exact Kr|].
       split; [rewrite (teq_tnode _ _ i T2); exact Tnr|]. right; left.
       split; [rewrite (teq_st _ _ i T2); exact Sr|]. split; [rewrite (teq_children _ _ i T2); exact Cr|]. split; [reflexivity | eapply PX_teq; eauto].
@@ -993,7 +1138,7 @@ Proof.
     rewrite S2. change (is_next SRunning) with true. cbv iota. rewrite K2. change (is SRunning SRunning) with true. cbv iota.
     rewrite Hnil. cbn [fold_left]. cbv beta iota zeta. rewrite ?Hnil. cbn [forallb]. cbv beta iota zeta. rewrite S2. cbn [is_completed negb].
     set (e3 := set_state 12 e2 i SCompleted).
-    assert (H3 : SI e3) by (apply SI_ss; auto; discriminate).
+    assert (H3 : SI e3) by (apply SI_ss; auto; try discriminate; intros _; now apply nochild_nil).
     assert (S3 : st e3 i = SCompleted) by (unfold e3; now rewrite (st_ss 12 e2 i SCompleted i Hi), Nat.eqb_refl).
     assert (HS3 : sameS e2 e3) by apply sameS_set_state.
     assert (Hi3 : i < ntasks e3) by (unfold e3; now rewrite ntasks_set_state).
@@ -1004,7 +1149,8 @@ Proof.
       - left. rewrite (sameS_parent _ _ i HS3). split; [exact Hp|]. unfold e3. rewrite (st_ss 12 e2 i SCompleted t Hi).
         destruct (Nat.eqb_spec t i) as [->|]; [|exact Hr]. apply (parent_lt e2 i i (SI_W e2 H2) Hi) in Hp. lia. }
     assert (T : Good (tail (S (S (S f))) [] e3 i (n_next (tnode e3 i)))).
-    { apply tail_good; auto; [now rewrite S3 | rewrite K3; discriminate | rewrite K3; cbn [lvl_of]; lia]. }
+    { apply tail_good; auto; [now rewrite S3 | rewrite K3; discriminate | | rewrite K3; cbn [lvl_of]; lia].
+      intros pp Hpp. rewrite (sameS_parent _ _ i HS3) in Hpp. apply (after_close 12 e2 i SCompleted pp H2 Hi); auto. unfold opn. now rewrite S2. }
     unfold tail in T. clearbody e3.
     destruct (n_next (tnode e3 i)) as [nx|]; cbv beta iota zeta in T |- *.
     + assert (E : is_completed (st (sched_next e3 nx i) i) = true).
@@ -1029,7 +1175,7 @@ Proof.
   intros H P Hi Hs Hq. destruct (fuel_ge e) as [f Hf]. rewrite Hf, exec_eq, Hs.
   change (is_completed SNone) with false. change (is SNone SNone) with true. cbv iota.
   destruct (init_state e i H P Hi Hs Hq) as (Ha & Pa & Sa & HSa & Hia & Qa & Ca).
-  destruct (frag_facts e i H Hi) as (Fif & Fsetup & Fnb & Fact & _). cbv zeta in Fif, Fsetup, Fnb, Fact.
+  destruct (frag_facts e i H Hi) as (Fif & Fsetup & Fnb & _ & Fact & _). cbv zeta in Fif, Fsetup, Fnb, Fact.
   unfold exec_init. set (a := set_state 1 (set_data e i (inputs e i)) i SReady) in *.
   assert (Tna : tnode a i = tnode e i) by (now apply sameS_tnode).
   assert (Ka : kind a i = kind e i) by (now apply sameS_kind).
@@ -1041,7 +1187,7 @@ Proof.
   - (* workflow *)
     rewrite (kind_init_W a i Ekn Fsetup). cbv zeta. rewrite (si_exn a Ha), Sa. change (negb (is_completed SReady)) with true. cbv iota.
     set (e1 := emit (S (S (S (S f)))) a i).
-    assert (T1 : teq a e1) by (apply emit_teq; [apply Ha | rewrite Sa; discriminate | apply (Hroot a (teq_refl a))]).
+    assert (T1 : teq a e1) by (apply emit_teqS; [exact Ha | rewrite Sa; discriminate | apply (Hroot a (teq_refl a))]).
     assert (H1 : SI e1) by (eapply SI_teq; eauto).
     assert (P1 : PX (fun t => t = i) e1) by (eapply PX_teq; eauto).
     assert (S1 : st e1 i = SReady) by (now rewrite (teq_st _ _ i T1)).
@@ -1063,7 +1209,7 @@ Proof.
     clearbody a'. rewrite (si_exn a' Ha'), Sa'. change (negb (is_completed SReady)) with true. cbv iota.
     set (e1 := emit (S (S (S (S f)))) a' i).
     assert (Ka' : kind a' i = KStep) by (rewrite (teq_kind _ _ i Ta); exact Ekn).
-    assert (T1' : teq a' e1) by (apply emit_teq; [apply Ha' | rewrite Sa'; discriminate | rewrite Ka'; discriminate]).
+    assert (T1' : teq a' e1) by (apply emit_teqS; [exact Ha' | rewrite Sa'; discriminate | rewrite Ka'; discriminate]).
     assert (T1 : teq a e1) by (eapply teq_trans; eauto).
     assert (H1 : SI e1) by (eapply SI_teq; eauto).
     assert (P1 : PX (fun t => t = i) e1) by (eapply PX_teq; eauto).
@@ -1089,13 +1235,13 @@ Proof.
     assert (Ka' : kind a' i = KAct) by (rewrite (teq_kind _ _ i Ta); exact Ekn).
     clearbody a'.
     set (b := set_state 4 a' i SInterrupt).
-    assert (Hb : SI b) by (apply SI_ss; auto; try discriminate; intros _; rewrite Sa'; auto).
+    assert (Hb : SI b) by (apply SI_ss; auto; try discriminate; [intros _; rewrite Sa'; auto | intros _; apply nochild_act; [apply (si_a a' Ha') | exact Ka']]).
     assert (Pb : PX (fun t => t = i) b) by (apply PX_open; auto).
     assert (Sb : st b i = SInterrupt) by (unfold b; now rewrite (st_ss 4 a' i SInterrupt i Hia'), Nat.eqb_refl).
     assert (Kb : kind b i = KAct) by (unfold b; rewrite (sameS_kind _ _ i (sameS_set_state 4 a' i SInterrupt)); exact Ka').
     clearbody b. rewrite (si_exn b Hb), Sb. change (negb (is_completed SInterrupt)) with true. cbv iota.
     set (e1 := emit (S (S (S (S f)))) b i).
-    assert (T1 : teq b e1) by (apply emit_teq; [apply Hb | rewrite Sb; discriminate | rewrite Kb; discriminate]).
+    assert (T1 : teq b e1) by (apply emit_teqS; [exact Hb | rewrite Sb; discriminate | rewrite Kb; discriminate]).
     assert (H1 : SI e1) by (eapply SI_teq; eauto).
     assert (P1 : PX (fun t => t = i) e1) by (eapply PX_teq; eauto).
     assert (S1 : st e1 i = SInterrupt) by (now rewrite (teq_st _ _ i T1)).
@@ -1111,7 +1257,8 @@ Proof.
   intros [H P] Hp.
   assert (HS : sameS e (with_queue e q')) by (split; [reflexivity | split; [reflexivity | intros y; split; reflexivity]]).
   split.
-  - constructor; try apply H.
+  - apply (SU_same e); [exact HS | reflexivity | | exact H].
+    constructor; try apply (si_a e H).
     change (queue (with_queue e q')) with q'. destruct (si_queue e H) as [Q1 Q2]. split.
     + intros t Ht. apply (Q1 t). eapply Permutation_in; [apply Permutation_sym; exact Hp | exact Ht].
     + eapply Permutation_NoDup; eauto.
@@ -1160,8 +1307,11 @@ Proof.
   apply (Good_teq e); [apply teq_add_ev|].
   assert (Hns : 0 < length ns) by (unfold frag_nodes in F; apply andb_true_iff in F as [_ F]; destruct ns; [discriminate | cbn; lia]).
   assert (Htk : forall t, tk e t = if Nat.eqb t 0 then new_task 0 None else dtask) by (intros [|[|t]]; reflexivity).
+  assert (Hpar0 : forall j, j < ntasks e -> parent e j = None).
+  { intros j Hj. assert (j = 0) by (unfold ntasks in Hj; cbn in Hj; lia). subst j. reflexivity. }
   split.
-  - constructor; try reflexivity; try exact F.
+  - constructor; [| intros j p Hj Hp; rewrite (Hpar0 j Hj) in Hp; discriminate | intros j1 j2 p H1 H2 P1; rewrite (Hpar0 j1 H1) in P1; discriminate].
+    constructor; try reflexivity; try exact F.
     + intros t. rewrite Htk. destruct (Nat.eqb t 0); split; reflexivity.
     + intros t Ht. assert (t = 0) by (unfold ntasks in Ht; cbn in Ht; lia). subst t. split; [reflexivity|]. split; [exact Hns|]. split; [discriminate | lia].
     + split; [unfold ntasks; cbn; lia | split; reflexivity].
@@ -1222,3 +1372,36 @@ Proof.
   intros F Hops. unfold go. destruct (Tree.build_tree 30 w) as [t|]; [|discriminate]. cbn [option_map] in *. inversion F as [F'].
   f_equal. apply sequential_interactive_never_stuck; [exact F' | cbn [forallb frag_op andb]; exact Hops].
 Qed.
+
+(* ---------- C03 on the class: hierarchical completion ---------- *)
+Lemma has_parent e j : SIa e -> 0 < j -> j < ntasks e -> exists p, parent e j = Some p.
+Proof.
+  intros H Hj0 Hj. unfold parent.
+  assert (Hl : 1 <= n_level (tnode e j)).
+  { rewrite (SIa_level e j H Hj). destruct (sia_task e H j Hj) as (_ & _ & _ & Hwf). specialize (Hwf Hj0). destruct (kind e j); cbn [lvl_of]; try lia. congruence. }
+  assert (G : forall q f, q < f -> q < ntasks e -> exists p, parent_from f e (n_level (tnode e j)) (Some q) = Some p).
+  { induction q as [q IH] using lt_wf_ind. intros f Hf Hq. destruct f as [|f]; [lia|]. cbn [parent_from].
+    destruct (Nat.ltb_spec (n_level (tnode e q)) (n_level (tnode e j))) as [Hlt|Hge]; [eauto|].
+    destruct q as [|q].
+    - exfalso. rewrite (SIa_level e 0 H Hq), (SIa_root_kind e H) in Hge. cbn [lvl_of] in Hge. lia.
+    - destruct (sia_prev e H (S q) ltac:(lia) Hq) as (r & -> & Hr & _). apply IH; lia. }
+  destruct (sia_prev e H j Hj0 Hj) as (q & -> & Hq & _). apply G; unfold ntasks in *; lia.
+Qed.
+Theorem good_hierarchy e : SI e ->
+  open_under_completed e = false /\ (is_completed (st e 0) = true -> forall j, j < ntasks e -> is_completed (st e j) = true).
+Proof.
+  intros H. split.
+  - unfold open_under_completed. apply not_true_is_false. intros Hex. apply existsb_exists in Hex as (c & Hc & Hb).
+    apply andb_true_iff in Hb as [Ho Hp]. apply negb_true_iff in Ho. apply in_seq in Hc.
+    destruct (parent e c) as [p|] eqn:Ep; [|discriminate].
+    rewrite (si_up e H c p ltac:(unfold ntasks; lia) Ep Ho) in Hp. discriminate.
+  - intros H0 j. induction j as [j IH] using lt_wf_ind. intros Hj.
+    destruct j as [|j]; [exact H0|]. destruct (is_completed (st e (S j))) eqn:Eo; [reflexivity|]. exfalso.
+    destruct (has_parent e (S j) H ltac:(lia) Hj) as (p & Hp).
+    pose proof (parent_lt e (S j) p (SI_W e H) Hj Hp) as Hlt.
+    pose proof (si_up e H (S j) p Hj Hp Eo) as Hr. pose proof (IH p Hlt ltac:(lia)) as Hcp. rewrite Hr in Hcp. discriminate.
+Qed.
+Theorem sequential_interactive_hierarchy ns c0 ops : frag_nodes ns = true -> forallb frag_op ops = true ->
+  let e := run ns c0 ops in
+  open_under_completed e = false /\ (is_completed (st e 0) = true -> forall j, j < ntasks e -> is_completed (st e j) = true).
+Proof. intros F Hops e. apply good_hierarchy. apply (run_good ns c0 ops F Hops). Qed.
